@@ -114,15 +114,23 @@ def sample_file(rng, inst, path, n=None, floatdata=False, voltage=None, amp_log=
 UNITS = ['', 'Channel', 'RFI', 'a.u.', 'au', 'MEF', 'rfi', 'mef', 'A.U.', 'channel', ' MEF ', 'Rfi']
 
 
+SEPS = [', ', ', ', ',', ' , ', ',  ', ' ,', ',\t']
+
+
+def join(rng, items):
+    """A comma-separated cell in one of the spellings a user types: the documented ', ' or other blank use."""
+    return str(SEPS[int(rng.integers(len(SEPS)))]).join(items)
+
+
 def experiment(rng, base_dir, n_inst=None, n_beads=None, n_samples=None, units_pool=UNITS, float_frac=0.3,
-               npop=4, fractions=(0.3, 0.5, 0.85, 1.0), nfl=None, force_float_first=False):
+               npop=4, fractions=(0.3, 0.5, 0.85, 1.0, 0.0, 1), nfl=None, force_float_first=False, zero_fraction_first=False):
     """Writes FCS files under base_dir and returns (instruments_df, beads_df, samples_df, info)."""
     os.makedirs(base_dir, exist_ok=True)
     n_inst = n_inst or int(rng.integers(1, 4))
     insts = [instrument(i, nfl or int(rng.integers(1, 4))) for i in range(n_inst)]
     allfl = sorted(set(ch for it in insts for ch in it['fl']))
     itab = pd.DataFrame([{'ID': it['ID'], 'Forward Scatter Channel': it['fsc'], 'Side Scatter Channel': it['ssc'],
-                          'Fluorescence Channels': ', '.join(it['fl']), 'Time Channel': it['time'], 'Comment': 'c%d' % i}
+                          'Fluorescence Channels': join(rng, it['fl']), 'Time Channel': it['time'], 'Comment': 'c%d' % i}
                          for i, it in enumerate(insts)]).set_index('ID')
     n_beads = int(rng.integers(0, 3)) if n_beads is None else n_beads
     brow = []
@@ -139,7 +147,7 @@ def experiment(rng, base_dir, n_inst=None, n_beads=None, n_samples=None, units_p
                 vals = [str(v * (1 + it['fl'].index(ch))) for v in MEF_LADDER[:npop]]
                 if rng.random() < 0.3:
                     vals[0] = 'None'
-                row[ch + ' MEF Values'] = ', '.join(vals)
+                row[ch + ' MEF Values'] = join(rng, vals)
         brow.append(row)
     cols = ['ID', 'Instrument ID', 'File Path'] + [ch + ' MEF Values' for ch in allfl] + ['Gate Fraction', 'Clustering Channels', 'Lot']
     btab = pd.DataFrame(brow, columns=cols).set_index('ID')
@@ -152,9 +160,12 @@ def experiment(rng, base_dir, n_inst=None, n_beads=None, n_samples=None, units_p
         fn = 'sample_%d.fcs' % k
         ti = str(rng.choice(['full', 'full', 'nodate', 'nostep', 'none']))
         wt = rng.random() < 0.7
+        if k == 0 and zero_fraction_first:
+            ti, wt = 'full', True           # a row that keeps no events, on a file with a time channel and a time step
         info['sample_specs']['S%d' % k] = sample_file(rng, it, os.path.join(base_dir, fn), floatdata=isf, with_time=wt, time_info=ti)
         row = {'ID': 'S%d' % k, 'Instrument ID': it['ID'], 'Beads ID': None, 'File Path': fn,
-               'Gate Fraction': float(rng.choice(fractions)), 'Strain': 'strain %d' % k}
+               'Gate Fraction': 0 if (k == 0 and zero_fraction_first) else fractions[int(rng.integers(len(fractions)))],
+               'Strain': 'strain %d' % k}
         for ch in allfl:
             row[ch + ' Units'] = None
         # beads of the same instrument with calibration for the channel
@@ -177,6 +188,8 @@ def experiment(rng, base_dir, n_inst=None, n_beads=None, n_samples=None, units_p
         srow.append(row)
     cols = ['ID', 'Instrument ID', 'Beads ID', 'File Path'] + [ch + ' Units' for ch in allfl] + ['Gate Fraction', 'Strain']
     stab = pd.DataFrame(srow, columns=cols).set_index('ID')
+    # keep whole-number fractions as integer cells (a user types 1, not 1.0)
+    stab['Gate Fraction'] = pd.Series([r['Gate Fraction'] for r in srow], index=stab.index, dtype=object)
     return itab, btab, stab, info
 
 
